@@ -637,6 +637,11 @@ def skolemize(hyps, goal):
                 keys = [(h.var_name(i).split("!")[0], str(h.var_sort(i))) for i in range(h.num_vars())]
                 if all(k in sk for k in keys):
                     inst.append(z3.substitute_vars(h.body(), *reversed([sk[k] for k in keys])))
+                elif h.num_vars() == 1:
+                    # single-variable hypotheses (library facts such as argmax dominance) at every goal constant of that sort
+                    for (nm, srt), c in sk.items():
+                        if srt == str(h.var_sort(0)):
+                            inst.append(z3.substitute_vars(h.body(), c))
         hyps.extend(inst)
     return hyps, goal
 
